@@ -893,7 +893,7 @@ func runLiterals(c *common.Ctx, res *common.Result, seen *hashSet, report func(c
 		lc := &cases[i]
 		var evals, nontriv int64
 		for _, cx := range litCtxs {
-			if cx.ID == "SUBR" && lc.Want == "string" {
+			if (cx.ID == "SUBR" || cx.ID == "ADDL") && lc.Want == "string" {
 				continue
 			}
 			evals++
@@ -1016,7 +1016,7 @@ func init() {
 			"a number literal is never the direct base of a postfix form and '-' applied to an unsigned number literal is identified with the negative literal (anko folds '-' NUMBER); both readings of -1[0] are allowed by the property",
 			"a ternary is parenthesised where ':' delimits (slice bounds, map entries, case heads); an expression whose minimal spelling starts with 'IDENT in' is not placed in a for head; binary operators are printed with blanks around them",
 			"values: one fixed environment (int64 identifiers, slices, nested maps, Go functions of arity 0/1/2, a pointer, one unbound name); error messages are not compared, only value or error-vs-success; runs that exhaust the fuel of 3000 polls are outside the compared set; 'go' position is parsed but not executed",
-			"literals: the checker's own classifier (decimal without redundant leading zero, 0x/0X hex, 0b/0B binary, float = digits '.' digits [exp] or digits exp, optional leading '-'); strings over plain characters and the escapes \\\\ \\\" \\' \\n \\t \\r \\b \\f; other backslash pairs, octal-looking numbers, '1.' and '.5' are under-determined and not generated",
+			"literals: the checker's own classifier (decimal (redundant leading zeros allowed and read in base 10: the language has no octal form), 0x/0X hex, 0b/0B binary, float = digits '.' digits [exp] or digits exp, optional leading '-'); strings over plain characters and the escapes \\\\ \\\" \\' \\n \\t \\r \\b \\f; other backslash pairs, '1.' and '.5' are under-determined and not generated",
 		},
 	})
 }
